@@ -279,8 +279,20 @@ class OrdSuite(Suite):
                         v.discr = d
                 if rp:
                     t.pre_attrs.append('#[repr(%s)]' % rp)
+                # rustc refuses equal discriminants: fall back to implicit ones
+                eff, cur = [], 0
+                for v in t.variants:
+                    if v.discr is not None:
+                        cur = v.discr
+                    eff.append(cur); cur += 1
+                if len(set(eff)) != len(eff) or (rp is None and any(v.shape != 'unit' for v in t.variants)):
+                    for v in t.variants:
+                        v.discr = None
             elif c < 0.7:
-                t.pre_attrs.append(pick(r, ['#[repr(u8)]', '#[repr(C)]', '#[repr(C, u8)]', '#[repr(align(8))]', '#[repr(u16)]', '#[repr(i8)]']))
+                reprs = ['#[repr(u8)]', '#[repr(C)]', '#[repr(align(8))]', '#[repr(u16)]', '#[repr(i8)]']
+                if any(v.shape != 'unit' for v in t.variants):
+                    reprs.append('#[repr(C, u8)]')
+                t.pre_attrs.append(pick(r, reprs))
         for v in t.variants:
             ranks = r.sample(range(-3, 9), len(v.fields))
             for i, f in enumerate(v.fields):
@@ -363,6 +375,445 @@ class OrdSuite(Suite):
 
 SUITES = {'eq': EqSuite(), 'hash': HashSuite(), 'ord': OrdSuite(), 'ordlayout': OrdSuite(layout=True)}
 
+# ---- appended to tools/k2.py: Debug, Clone, Default, Deref, Into, union suites
+class DebugSuite(Suite):
+    name = 'debug'
+    def make(self, r, tid):
+        plain_names = [n for n in FIELD_NAMES if not n.startswith('r#')]
+        t = gen_shape(r, tid)
+        for v in t.variants:          # ordinary identifiers only (C06 speaks of ordinary identifiers)
+            for f in v.fields:
+                if f.name and f.name.startswith('r#'):
+                    f.name = 'rr_' + f.name[2:]
+        noparam = r.random() < 0.25
+        tparams = []
+        # type-level name
+        tname = 'T' if t.kind == 'struct' else None        # enum default: Disable
+        if not noparam:
+            c = r.random()
+            if c < 0.25:
+                tname = 'Zz'
+                tparams.append(pick(r, ['name = Zz', 'name(Zz)', 'name = "Zz"', 'name("Zz")', 'rename = Zz', 'rename("Zz")']))
+            elif c < 0.45:
+                tname = None
+                tparams.append(pick(r, ['name = false', 'name(false)', 'name = ""', 'rename = false']))
+            elif c < 0.65:
+                tname = 'T'
+                tparams.append(pick(r, ['name = true', 'name(true)']))
+        def style_for(v, owner_params, default_named):
+            named = default_named
+            if not noparam and v.shape != 'unit' and r.random() < 0.35:
+                named = not default_named
+                owner_params.append(pick(r, ['named_field = %s', 'named_field(%s)']) % ('true' if named else 'false'))
+            return named
+        plans = []
+        for v in t.variants:
+            vparams = []
+            if t.kind == 'struct':
+                vname = None
+                named = style_for(v, tparams, v.shape != 'unnamed')
+            else:
+                vname = v.name
+                if not noparam:
+                    c = r.random()
+                    if c < 0.2:
+                        vname = 'Ren'
+                        vparams.append(pick(r, ['name = Ren', 'name(Ren)', 'name = "Ren"', 'rename = Ren']))
+                    elif c < 0.35:
+                        vname = None
+                        vparams.append(pick(r, ['name = false', 'name(false)', 'name = ""']))
+                named = style_for(v, vparams, v.shape == 'named')
+            shown = []
+            for i, f in enumerate(v.fields):
+                c = r.random()
+                ps = []
+                key = f.name if f.name is not None else '_%d' % i
+                meth = False
+                if not noparam:
+                    if c < 0.2:
+                        f.at['_metas'] = [pick(r, ['Debug(ignore)', 'Debug = false', 'Debug(ignore = true)', 'Debug(ignore(true))'])]
+                        continue
+                    if c < 0.45 and not f.ft.native:
+                        meth = True
+                        ps.append(pick(r, ['method(m_fmt)', 'method = m_fmt', 'method = "m_fmt"']))
+                    if named and r.random() < 0.3:
+                        key = 'k%d' % i
+                        ps.append(pick(r, ['name = k%d', 'name(k%d)', 'name = "k%d"', 'rename = k%d', 'rename("k%d")']) % i)
+                    if ps:
+                        r.shuffle(ps)
+                        f.at['_metas'] = ['Debug(%s)' % ', '.join(ps)]
+                        if ps == ['name = k%d' % i] and r.random() < 0.5:
+                            f.at['_metas'] = ['Debug = k%d' % i]
+                shown.append((i, key, meth))
+            if vparams:
+                r.shuffle(vparams)
+                v.at['_metas'] = ['Debug(%s)' % ', '.join(vparams)]
+                if vparams == ['name = Ren'] and r.random() < 0.5:
+                    v.at['_metas'] = ['Debug = Ren']
+            # effective name
+            if t.kind == 'struct':
+                eff = tname
+            else:
+                eff = '%s::%s' % (tname, vname) if (tname and vname) else (tname or vname)
+            plans.append((v, eff, named, shown))
+        if tparams:
+            r.shuffle(tparams)
+            t.type_attrs = ['Debug(%s)' % ', '.join(tparams)]
+            if tparams == ['name = Zz'] and r.random() < 0.5:
+                t.type_attrs = ['Debug = Zz']
+        else:
+            t.type_attrs = ['Debug']
+        # requests educe refuses: nothing to show and no name
+        for v, eff, named, shown in plans:
+            if eff is None and (v.shape == 'unit' or not shown):
+                return None
+        arms = []
+        for v, eff, named, shown in plans:
+            def val(i, meth):
+                return '&Wm(p%d)' % i if meth else 'p%d' % i
+            if v.shape == 'unit' and t.kind == 'enum':
+                body = 'f.write_str("%s")' % eff
+            elif named:
+                if eff is not None:
+                    body = 'f.debug_struct("%s")' % eff + ''.join('.field("%s", %s)' % (k, val(i, m)) for i, k, m in shown) + '.finish()'
+                else:
+                    body = 'f.debug_map()' + ''.join('.entry(&Raw("%s"), %s)' % (k, val(i, m)) for i, k, m in shown) + '.finish()'
+            else:
+                body = 'f.debug_tuple("%s")' % (eff or '') + ''.join('.field(%s)' % val(i, m) for i, k, m in shown) + '.finish()'
+            arms.append('%s => %s' % (pat(t, v, 'p'), body))
+        vf, nv = values_fn(t, r, cap=24)
+        fns = [vf, show_fn(t),
+               'pub fn o_fmt(x: &T, f: &mut ::core::fmt::Formatter<\'_>) -> ::core::fmt::Result { match x { %s } }' % ', '.join(arms)]
+        checks = ['let g = format!("{:?}", a); let e = format!("{:?}", Fm(|f: &mut ::core::fmt::Formatter<\'_>| o_fmt(a, f)));'
+                  ' out.check(g == e, "%s", "debug", || format!("{{:?}} of {} = {:?} expected {:?}", show(a), g, e));' % tid,
+                  'let g = format!("{:#?}", a); let e = format!("{:#?}", Fm(|f: &mut ::core::fmt::Formatter<\'_>| o_fmt(a, f)));'
+                  ' out.check(g == e, "%s", "debug_alt", || format!("{{:#?}} of {} = {:?} expected {:?}", show(a), g, e));' % tid,
+                  'let g = format!("{:8?}", a); let e = format!("{:8?}", Fm(|f: &mut ::core::fmt::Formatter<\'_>| o_fmt(a, f)));'
+                  ' out.check(g == e, "%s", "debug_width", || format!("{{:8?}} of {} = {:?} expected {:?}", show(a), g, e));' % tid]
+        twin = ''
+        if noparam and t.kind == 'struct' or (noparam and t.kind == 'enum' and False):
+            pass
+        if noparam:
+            # byte-identical to #[derive(Debug)] (for an enum: with the default, disabled, enum name)
+            t2 = Ty(tid, t.kind, t.variants)
+            saved = [(f, f.at) for v in t.variants for f in v.fields]
+            decl = type_decl_plain(t)
+            twin = 'pub mod twin { use crate::support::*; #[derive(Debug)] %s\n %s }' % (decl, vf.replace('pub fn values', 'pub fn values'))
+            checks_tw = ('let tw = twin::values(); for (i, a) in vs.iter().enumerate() { let g = format!("{:?}", a); let e = format!("{:?}", tw[i]);'
+                         ' out.check(g == e, "%s", "debug_vs_derive", || format!("{{:?}} = {:?} but #[derive(Debug)] gives {:?}", g, e));'
+                         ' let g = format!("{:#?}", a); let e = format!("{:#?}", tw[i]);'
+                         ' out.check(g == e, "%s", "debug_alt_vs_derive", || format!("{{:#?}} = {:?} but #[derive(Debug)] gives {:?}", g, e)); }' % (tid, tid))
+        else:
+            checks_tw = ''
+        fns.append(twin)
+        fns.append('pub fn run(out: &mut Out) { let vs = values(); for a in &vs { %s } %s }' % (' '.join(checks), checks_tw))
+        return t, module(t, '\n'.join(fns), nv), dict(values=nv, noparam=noparam)
+
+def type_decl_plain(t):
+    """the bare type definition (no attributes)"""
+    def fd(v):
+        if v.shape == 'unit':
+            return ''
+        if v.shape == 'named':
+            return ' { ' + ', '.join('%s: %s' % (f.name, f.ft.rust) for f in v.fields) + ' }'
+        return '(' + ', '.join(f.ft.rust for f in v.fields) + ')'
+    if t.kind == 'struct':
+        v = t.variants[0]
+        return 'pub struct T%s%s' % (fd(v), '' if v.shape == 'named' else ';')
+    return 'pub enum T { %s }' % ', '.join('%s%s' % (v.name, fd(v)) for v in t.variants)
+
+class CloneSuite(Suite):
+    name = 'clone'
+    def make(self, r, tid):
+        copy = r.random() < 0.3
+        ftgen = (lambda r, i: ft_C(0 if r.random() < 0.5 else i)) if copy else None
+        t = gen_shape(r, tid, ftgen=ftgen)
+        t.type_attrs = [pick(r, ['Clone, Copy', 'Copy, Clone'])] if copy else ['Clone']
+        mname = 'm_clone_c' if copy else 'm_clone'
+        anymethod = False
+        for v in t.variants:
+            for f in v.fields:
+                f.at['c'] = 'plain'
+                if r.random() < 0.3 and not (copy and t.kind == 'struct'):
+                    f.at['c'] = 'method'; anymethod = True
+                    f.at['_metas'] = [sp_method(r, 'Clone', mname)]
+        bitwise = copy and not anymethod
+        arms, logs = [], []
+        for v in t.variants:
+            ex, lg = [], []
+            for i, f in enumerate(v.fields):
+                con = f.ft.rust[0]
+                if f.at['c'] == 'method':
+                    ex.append('%s(p%d.0.wrapping_add(50))' % (con, i))
+                    lg.append('format!("m_clone %s{} {}", p%d.k(), p%d.0)' % (con, i, i))
+                else:
+                    ex.append('%s(p%d.0)' % (con, i))
+                    lg.append('format!("clone %s{} {}", p%d.k(), p%d.0)' % (con, i, i))
+            arms.append('%s => %s' % (pat(t, v, 'p'), build(t, v, ex)))
+            logs.append('%s => vec![%s]' % (pat(t, v, 'p'), ', '.join([] if bitwise else lg)))
+        vf, nv = values_fn(t, r, cap=20)
+        fns = [vf, show_fn(t),
+               'pub fn o_clone(x: &T) -> T { match x { %s } }' % ', '.join(arms),
+               'pub fn o_log(x: &T) -> Vec<String> { match x { %s } }' % ', '.join(logs)]
+        run = ('pub fn run(out: &mut Out) { let vs = values(); for a in &vs { let _ = take_log(); let g = ::core::clone::Clone::clone(a); let l = take_log(); let e = o_clone(a);'
+               ' out.check(show(&g) == show(&e), "%s", "clone", || format!("clone({}) = {} expected {}", show(a), show(&g), show(&e)));'
+               ' let el = o_log(a); out.check(l == el, "%s", "clone_calls", || format!("clone({}) called {:?} expected {:?}", show(a), l, el)); }'
+               ' let n = vs.len(); for i in 0..n { for j in 0..n { let mut x = values().swap_remove(i); let shown = show(&x); ::core::clone::Clone::clone_from(&mut x, &vs[j]); let e = o_clone(&vs[j]);'
+               ' out.check(show(&x) == show(&e), "%s", "clone_from", || format!("{}.clone_from({}) = {} expected {}", shown, show(&vs[j]), show(&x), show(&e))); } } }' % (tid, tid, tid))
+        if copy:
+            run = run[:-1] + ' fn is_copy<X: Copy>() {} is_copy::<T>(); }'
+        fns.append(run)
+        return t, module(t, '\n'.join(fns), nv), dict(values=nv, copy=copy)
+
+DEF_TYPES = [  # (rust type, [(attribute value text, expected expr)], plain default expr)
+    ('u8', [('5', '5u8'), ('b\'a\'', "b'a'"), ('0x10', '16u8'), ('7u8', '7u8')], '0u8'),
+    ('u16', [('300', '300u16'), ('9u16', '9u16')], '0u16'),
+    ('i64', [('12', '12i64'), ('1_000', '1000i64')], '0i64'),
+    ('u64', [('3u8', '3u64')] if False else [('3', '3u64')], '0u64'),
+    ('f64', [('1.5', '1.5f64'), ('2', '2f64'), ('2.5f64', '2.5f64')], '0f64'),
+    ('f32', [('1.5', '1.5f32')], '0f32'),
+    ('bool', [('true', 'true'), ('false', 'false')], 'false'),
+    ('char', [("'x'", "'x'")], "'\\0'"),
+    ("&'static str", [('"hi"', '"hi"')], '""'),
+    ('String', [('"hi"', 'String::from("hi")'), ('String::from("yo")', 'String::from("yo")')], 'String::new()'),
+    ('A<0>', [('A(9)', 'A(9)')], 'A(40)'),
+    ('A<3>', [('A(9)', 'A(9)')], 'A(43)'),
+    ('i128', [('77', '77i128')], '0i128'),
+    ('Option<u8>', [('Some(3)', 'Some(3u8)'), ('None', 'None')], 'None'),
+]
+def sp_default_value(r, val):
+    simple = re.match(r'^[\w.\'"]+$', val) is not None and not val[0].isalpha() or val in ('true', 'false')
+    forms = ['Default(expression = %s)' % val, 'Default(expression(%s))' % val, 'Default(expr = %s)' % val, 'Default(expr(%s))' % val]
+    if simple or val.startswith("b'") or val.startswith('"') or val.startswith("'"):
+        forms += ['Default = %s' % val] * 3
+    return pick(r, forms)
+
+class DefaultSuite(Suite):
+    name = 'default'
+    def make(self, r, tid):
+        def ftgen(r, i):
+            ty, vals, dflt = pick(r, DEF_TYPES)
+            ft = FT(ty, [], native=True)
+            ft.defs, ft.dflt = vals, dflt
+            return ft
+        t = gen_shape(r, tid, ftgen=ftgen, min_variants=1)
+        tparams = []
+        new = r.random() < 0.4
+        if new:
+            tparams.append(pick(r, ['new', 'new = true', 'new(true)']))
+        texpr = None
+        if r.random() < 0.12:
+            # type-level expression: build an explicit value
+            v = pick(r, t.variants)
+            texpr = build(t, v, [f.ft.dflt if f.ft.rust not in ('A<0>', 'A<3>') else 'A(1)' for f in v.fields])
+            expected = texpr
+            tparams.append(pick(r, ['expression = %s', 'expression(%s)', 'expr = %s', 'expr(%s)']) % texpr)
+        else:
+            dv = pick(r, t.variants)
+            if t.kind == 'enum' and (len(t.variants) > 1 or r.random() < 0.5):
+                dv.at['_metas'] = ['Default']
+            ex = []
+            for f in dv.fields:
+                if r.random() < 0.55:
+                    val, exp = pick(r, f.ft.defs)
+                    f.at['_metas'] = [sp_default_value(r, val)]
+                    ex.append(exp)
+                else:
+                    ex.append(f.ft.dflt)
+            expected = build(t, dv, ex)
+        r.shuffle(tparams)
+        t.type_attrs = ['Default(%s)' % ', '.join(tparams)] if tparams else ['Default']
+        fns = [show_fn(t), 'pub fn o_default() -> T { %s }' % expected]
+        checks = ['let g = <T as ::core::default::Default>::default(); let e = o_default(); out.check(show(&g) == show(&e), "%s", "default", || format!("default() = {} expected {}", show(&g), show(&e)));' % tid]
+        if new:
+            checks.append('let g = T::new(); let e = o_default(); out.check(show(&g) == show(&e), "%s", "new", || format!("new() = {} expected {}", show(&g), show(&e)));' % tid)
+        fns.append('pub fn run(out: &mut Out) { %s }' % ' '.join(checks))
+        return t, module(t, '\n'.join(fns), 1), dict(values=1, new=new)
+
+class DerefSuite(Suite):
+    name = 'deref'
+    def make(self, r, tid):
+        target_k = r.randrange(3)
+        t = gen_shape(r, tid, unit_ok=False, ftgen=lambda r, i: ft_A(r.randrange(3)))
+        mut = r.random() < 0.7
+        ref_field = (not mut) and r.random() < 0.3
+        plans = []
+        for v in t.variants:
+            n = len(v.fields)
+            if n == 0:
+                return None
+            di = r.randrange(n)
+            mi = r.randrange(n) if r.random() < 0.5 else di
+            v.fields[di].ft = ft_A(target_k)
+            v.fields[mi].ft = ft_A(target_k)
+            if ref_field:
+                v.fields[di].ft = FT("&'static A<%d>" % target_k, ['&A(0)', '&A(1)'])
+            metas = {}
+            if n > 1 or r.random() < 0.3:
+                metas.setdefault(di, []).append('Deref')
+                if mut:
+                    metas.setdefault(mi, []).append('DerefMut')
+            elif mut and n == 1:
+                mi = di
+            for i, ms in metas.items():
+                r.shuffle(ms)
+                if r.random() < 0.5:
+                    v.fields[i].at['_metas'] = [', '.join(ms)]
+                else:
+                    v.fields[i].at['_metas'] = list(ms)
+            plans.append((v, di, mi if mut else None))
+        ta = ['Deref'] + (['DerefMut'] if mut else [])
+        r.shuffle(ta)
+        t.type_attrs = [', '.join(ta)]
+        tgt = 'A<%d>' % target_k
+        darms = ['%s => %s as *const %s' % (pat(t, v, 'p', only={di}), ('*p%d' % di) if ref_field else 'p%d' % di, tgt) for v, di, mi in plans]
+        vf, nv = values_fn(t, r, cap=16)
+        fns = [vf, show_fn(t), 'pub fn o_deref(x: &T) -> *const %s { match x { %s } }' % (tgt, ', '.join(darms))]
+        checks = ['for a in &vs { let g = ::core::ops::Deref::deref(a) as *const %s; let e = o_deref(a); out.check(g == e, "%s", "deref", || format!("&*{} has another address than the designated field", show(a))); }' % (tgt, tid)]
+        if mut:
+            marms = ['%s => p%d as *mut %s' % (pat(t, v, 'p', only={mi}), mi, tgt) for v, di, mi in plans]
+            warms = ['%s => { *p%d = A(99); }' % (pat(t, v, 'p', only={mi}), mi) for v, di, mi in plans]
+            fns.append('pub fn o_deref_mut(x: &mut T) -> *mut %s { match x { %s } }' % (tgt, ', '.join(marms)))
+            fns.append('pub fn o_write(x: &mut T) { match x { %s } }' % ', '.join(warms))
+            checks.append('let n = vs.len(); for i in 0..n { let mut x = values().swap_remove(i); let e = o_deref_mut(&mut x); let g = ::core::ops::DerefMut::deref_mut(&mut x) as *mut %s;'
+                          ' out.check(g == e, "%s", "deref_mut", || format!("&mut *{} has another address than the designated field", show(&x)));'
+                          ' let mut y = values().swap_remove(i); o_write(&mut y); *::core::ops::DerefMut::deref_mut(&mut x) = A(99);'
+                          ' out.check(show(&x) == show(&y), "%s", "deref_mut_write", || format!("after a write through &mut *x: {} expected {}", show(&x), show(&y))); }' % (tgt, tid, tid))
+        fns.append('pub fn run(out: &mut Out) { let vs = values(); %s }' % ' '.join(checks))
+        return t, module(t, '\n'.join(fns), nv), dict(values=nv, mut=mut)
+
+class IntoSuite(Suite):
+    name = 'into'
+    def make(self, r, tid):
+        t = gen_shape(r, tid, unit_ok=False, ftgen=lambda r, i: ft_A(r.randrange(4)), maxf=3)
+        ntargets = pick(r, [1, 1, 2, 3])
+        cands = ['B<0>', 'B<1>', 'B<2>', 'A<0>', 'A<1>']
+        targets = r.sample(cands, ntargets)
+        oracle = {}
+        for v in t.variants:
+            if not v.fields:
+                return None
+        # designated field per (target, variant); a field designated for an `A<J>` target has that very type
+        des = {}
+        for tg in targets:
+            for v in t.variants:
+                i = r.randrange(len(v.fields))
+                des[(tg, v.name)] = i
+                if tg.startswith('A'):
+                    v.fields[i].ft = ft_A(int(tg[2]))
+        for tg in targets:
+            for v in t.variants:
+                n = len(v.fields)
+                i = des[(tg, v.name)]
+                if tg.startswith('A') and v.fields[i].ft.rust != tg:
+                    return None                      # overwritten by a later A-target: draw again
+                same = [j for j, f in enumerate(v.fields) if f.ft.rust == tg]
+                if n == 1:
+                    mark = r.random() < 0.3
+                elif same == [i]:
+                    mark = r.random() < 0.4
+                else:
+                    mark = True
+                f = v.fields[i]
+                meth = False
+                if mark:
+                    if tg.startswith('B') and r.random() < 0.4:
+                        meth = True
+                        f.at.setdefault('_metas', []).append(pick(r, ['Into(%s, method(m_into))', 'Into(%s, method = m_into)', 'Into(%s, method = "m_into")']) % tg)
+                    else:
+                        f.at.setdefault('_metas', []).append('Into(%s)' % tg)
+                oracle[(tg, v.name)] = (i, meth)
+        ta = ['Into(%s)' % tg for tg in targets]
+        if r.random() < 0.5:
+            t.type_attrs = [', '.join(ta)]
+        else:
+            t.type_attrs = ta
+        vf, nv = values_fn(t, r, cap=12)
+        fns = [vf, show_fn(t)]
+        checks = []
+        for k, tg in enumerate(targets):
+            arms = []
+            for v in t.variants:
+                i, meth = oracle[(tg, v.name)]
+                f = v.fields[i]
+                if meth:
+                    e = 'm_into(p%d)' % i
+                elif f.ft.rust == tg:
+                    e = 'p%d' % i
+                else:
+                    e = '::core::convert::Into::into(p%d)' % i
+                arms.append('%s => %s' % (pat(t, v, 'p', only={i}), e))
+            fns.append('pub fn o_into_%d(x: T) -> %s { match x { %s } }' % (k, tg, ', '.join(arms)))
+            checks.append('for i in 0..n { let a = values().swap_remove(i); let shown = show(&a); let g: %s = ::core::convert::Into::into(a); let e = o_into_%d(values().swap_remove(i));'
+                          ' out.check(sv(&g) == sv(&e), "%s", "into", || format!("Into::<%s>::into({}) = {} expected {}", shown, sv(&g), sv(&e))); }' % (tg, k, tid, tg))
+        fns.append('pub fn run(out: &mut Out) { let n = values().len(); %s }' % ' '.join(checks))
+        return t, module(t, '\n'.join(fns), nv), dict(values=nv, targets=targets)
+
+class UnionSuite(Suite):
+    name = 'union'
+    def make(self, r, tid):
+        nf = pick(r, [1, 2, 3])
+        pool = [('u8', 1), ('u16', 2), ('[u8; 3]', 3), ('u32', 4), ('C<1>', 1), ('[u16; 2]', 4), ('u64', 8)]
+        fs = []
+        for nm in r.sample(['a', 'b', 'c', 'x', 'state', 'f'], nf):
+            ty, sz = pick(r, pool)
+            f = Fld(nm, FT(ty, [])); f.size = sz
+            fs.append(f)
+        t = Ty(tid, 'union', [Var(None, 'named', fs)])
+        size_expr = '::core::mem::size_of::<T>()'
+        traits = r.sample(['Debug', 'PartialEq', 'Hash', 'Clone', 'Default'], pick(r, [1, 2, 3, 5]))
+        name = 'T'
+        ta = []
+        dparams = ['unsafe']
+        if 'Debug' in traits:
+            c = r.random()
+            if c < 0.3:
+                name = None; dparams.append(pick(r, ['name = false', 'name(false)']))
+            elif c < 0.5:
+                name = 'Uu'; dparams.append(pick(r, ['name = Uu', 'name(Uu)', 'name = "Uu"']))
+            ta.append('Debug(%s)' % ', '.join(dparams))
+        if 'PartialEq' in traits:
+            ta.append('PartialEq(unsafe)')
+        if 'Hash' in traits:
+            ta.append('Hash(unsafe)')
+        if 'Clone' in traits:
+            ta.append('Clone'); t.extra = 'impl Copy for T {}'
+        dfield = None
+        if 'Default' in traits:
+            dfield = r.randrange(nf)
+            if nf > 1 or r.random() < 0.4:
+                fs[dfield].at['_metas'] = ['Default']
+            ta.append('Default')
+        r.shuffle(ta)
+        t.type_attrs = [', '.join(ta)]
+        big = max(f.size for f in fs)
+        fns = [t.extra,
+               'pub fn mk(pattern: u8) -> T { let mut x = ::core::mem::MaybeUninit::<T>::uninit(); unsafe { ::core::ptr::write_bytes(x.as_mut_ptr() as *mut u8, 0, %s);'
+               ' let p = x.as_mut_ptr() as *mut u8; for i in 0..%s { *p.add(i) = pattern.wrapping_mul(i as u8 + 1).wrapping_add(i as u8); } x.assume_init() } }' % (size_expr, size_expr),
+               'pub fn bytes(x: &T) -> &[u8] { unsafe { ::core::slice::from_raw_parts(x as *const T as *const u8, %s) } }' % size_expr]
+        checks = []
+        if 'PartialEq' in traits:
+            checks.append('for p in 0..6u8 { for q in 0..6u8 { let a = mk(p); let b = mk(q); let e = bytes(&a) == bytes(&b); out.check((a == b) == e, "%s", "union_eq", || format!("{:?} == {:?} expected {}", bytes(&a), bytes(&b), e)); } }' % tid)
+            checks.append('{ let a = mk(3); let mut b = mk(3); unsafe { let p = &mut b as *mut T as *mut u8; let n = %s; *p.add(n - 1) ^= 0x55; } out.check(a != b, "%s", "union_eq_last_byte", || format!("values differing in their last byte compare equal")); }' % (size_expr, tid))
+        if 'Hash' in traits:
+            checks.append('for p in 0..6u8 { let a = mk(p); let mut g = Rec::default(); ::core::hash::Hash::hash(&a, &mut g); let mut e = Rec::default(); ::core::hash::Hash::hash(bytes(&a), &mut e); out.check(g.0 == e.0, "%s", "union_hash", || format!("hash fed {:?} expected {:?}", g.0, e.0)); }' % tid)
+        if 'Debug' in traits:
+            exp = 'format!("{:?}", Fm(|f: &mut ::core::fmt::Formatter<\'_>| f.debug_tuple("%s").field(&bytes(&a)).finish()))' % name if name else 'format!("{:?}", bytes(&a))'
+            expa = exp.replace('{:?}', '{:#?}', 1)
+            checks.append('for p in 0..6u8 { let a = mk(p); let g = format!("{:?}", a); let e = %s; out.check(g == e, "%s", "union_debug", || format!("{{:?}} = {:?} expected {:?}", g, e));'
+                          ' let g = format!("{:#?}", a); let e = %s; out.check(g == e, "%s", "union_debug_alt", || format!("{{:#?}} = {:?} expected {:?}", g, e)); }' % (exp, tid, expa, tid))
+        if 'Clone' in traits:
+            checks.append('for p in 0..6u8 { let a = mk(p); let b = ::core::clone::Clone::clone(&a); out.check(bytes(&a) == bytes(&b), "%s", "union_clone", || format!("clone {:?} of {:?}", bytes(&b), bytes(&a))); }' % tid)
+        if 'Default' in traits:
+            f = fs[dfield]
+            checks.append('{ let d = <T as ::core::default::Default>::default(); let e = T { %s: ::core::default::Default::default() }; let n = ::core::mem::size_of::<%s>();'
+                          ' out.check(bytes(&d)[..n] == bytes(&e)[..n], "%s", "union_default", || format!("default() initialised {:?} expected field %s = {:?}", &bytes(&d)[..n], &bytes(&e)[..n])); }' % (f.name, f.ft.rust, tid, f.name))
+        fns.append('pub fn run(out: &mut Out) { %s }' % ' '.join(checks))
+        return t, module(t, '\n'.join(fns), 6), dict(values=6, traits=traits)
+
+SUITES.update({'debug': DebugSuite(), 'clone': CloneSuite(), 'default': DefaultSuite(), 'deref': DerefSuite(),
+               'into': IntoSuite(), 'union': UnionSuite()})
+
 # ------------------------------------------------------------------ build & run
 MAIN_HEAD = '#![allow(clippy::all)]\nmod support;\n'
 
@@ -425,8 +876,12 @@ def run(pid, suites, tier, seed, n=None):
             S = SUITES[sname]
             for i in range(n):
                 tid = '%s_%d' % (S.name, i)
-                r = random.Random('k2-%s-%d-%d' % (S.name, seed, i))
-                t, src, meta = S.make(r, tid)
+                res, k = None, 0
+                while res is None:
+                    r = random.Random('k2-%s-%d-%d-%d' % (S.name, seed, i, k))
+                    res = S.make(r, tid)
+                    k += 1
+                t, src, meta = res
                 mods.append((tid, src))
                 info[tid] = (t, src, meta)
         lines, compile_fail, rc = build_and_run(mods)
